@@ -222,6 +222,26 @@ _MORE = {
     'C17': ('; hoisted-precomputation clause of the order-free hash rule', ' Also: nothing hashed inside the radius loop was computed before it from identifiers the loop rebinds.'),
     'C19': ('; interim-cache typestate facts; hoisted-precomputation clause', ' Also: first call and cached call agree because no method leaves an entry computed for an earlier state.'),
 }
+_MORE6 = {
+    'C01': '; closure-order consumer agreement in Smiles._smiles',
+    'C02': '; closure-order consumer agreement, elemental-bracket arm as DNF, provenance of the bare string returned to the reaction writer',
+    'C04': '; tentative-removal-set agreement in implicify_hydrogens',
+    'C05': '; tri-state ladder lint (None vs 0 hydrogens)',
+    'C06': '; argument-mutation lint (missing copies) with a frozen table of documented in-place helpers',
+    'C08': '; substring-membership lint',
+    'C09': '; accumulate-in-loops clause of the mask encoders',
+    'C11': '; truth table of the RDF header condition',
+    'C13': '; same-reach-conditions clause for the two halves of a removed bond',
+    'C14': '; tentative-removal-set agreement; slice-after-truncation lint',
+    'C15': '; provenance of the bare string returned to the reaction writer',
+    'C17': '; sibling agreement of the "no cap" sentinel',
+    'C20': '; swallowing-try-around-loop lint',
+}
+for _pid, _t in _MORE6.items():
+    if _pid in _MORE:
+        _MORE[_pid] = (_MORE[_pid][0] + _t, _MORE[_pid][1])
+    else:
+        _MORE[_pid] = (_t, '')
 for _pid, (_t, _x) in _MORE.items():
     if _pid in CLAIMS:
         _c = CLAIMS[_pid]
